@@ -64,6 +64,9 @@ class Interp:
                 it.updates.append((self._pair, dt, self.which))
         self.Upd = Upd
         self.w1, self.w2 = d.World(), d.World()
+        # a second pair of worlds, where processors live that are then
+        # assigned through a reference in W1 / added to W2
+        self.x1, self.x2 = d.World(), d.World()
         for w in (self.w1, self.w2):
             p = d.OnUpdateProcessor()
             p._pair = 'onupdate'
@@ -278,6 +281,12 @@ class Interp:
         elif what == 'set':
             a, b = self.pair(self.P[j])
             k = op[4] if len(op) > 4 else None
+            if k == 'foreign':
+                # the processor is registered in another world already
+                k = None
+                self.x1.add_processor(a)
+                self.x2.add_processor(b)
+                self.probes['processor_from_another_world'] += 1
             if k is not None:           # instance-level priority
                 a.priority = b.priority = k
                 self.probes['instance_priority'] += 1
@@ -482,6 +491,11 @@ class Interp:
             diff = {k: (v1[k], v2[k]) for k in v1 if v1[k] != v2.get(k)}
             self.fail('state_differs', f'twin worlds differ: {diff}')
         self.trace.add('state', kernel.h64(repr(sorted(v1.items()))))
+        x1, x2 = self.view(self.x1), self.view(self.x2)
+        if x1 != x2:
+            diff = {k: (x1[k], x2[k]) for k in x1 if x1[k] != x2.get(k)}
+            self.fail('state_differs', f'the shorthand changed another '
+                      f'world than the World call did: {diff}')
         if self.enabled:
             for slot, s in self.slots.items():
                 c = s['ctl']
@@ -593,6 +607,8 @@ def generate(prop, run_seed, tier='quick', tolerate=frozenset()):
             op = ['pref', slot, rng.randrange(npc), what]
             if what == 'set' and rng.random() < .4:
                 op.append(rng.choice([-2, -1, 0, 1, 3, 7]))
+            elif what == 'set' and rng.random() < .25:
+                op.append('foreign')
             ops.append(op)
         elif kind == 'process':
             ops.append(['process', rng.choice(DTS)])
@@ -654,6 +670,7 @@ PROBES = {'C19': ['form.function', 'form.method', 'form.descriptor_get',
                   'form.processor_ref', 'form.factory',
                   'controller_attached_disabled', 'proto.dict_wins',
                   'proto.prefix_method', 'proto.default_ctor',
+                  'processor_from_another_world',
                   'proto.custom_prefix', 'proto.override',
                   'proto_iterated_twice', 'same_name_types',
                   'on_update_checked', 'instance_priority']}
